@@ -18,7 +18,7 @@ CONSTANTS
   BroadcastDedup = TRUE
   FIX_PruneEmpty = TRUE
   AllowLate = TRUE
-  AtomicCheck = FALSE
+  AtomicCheck = TRUE
   FlipAccounts = {"A", "B"}
   Self = "A"
   LocalPats = {}
@@ -27,6 +27,7 @@ CONSTANTS
   RingSize = 1
 VIEW View
 INVARIANT NodeInv
+INVARIANT EvictedStayOut
 PROPERTY PropDeliveryExact
 PROPERTY PropAtMostOneCopy
 PROPERTY PropRelayedNeverForwarded
